@@ -113,8 +113,52 @@ def run(name, props):
     json.dump(meta, open(os.path.join(dst, "meta.json"), "w"), indent=1)
 
 
+def harvest(name, seeds):
+    """run the property's check against the seeded change with several seeds until it reports a concrete violation whose
+    replay is an `irc` case; keep the (shrunk) case(s) as corpus/irc/seeded-<name>-<k>.case — corpus cases run first on
+    every run of every IRC-based check, so the detection no longer depends on what the generator happens to produce."""
+    dst = os.path.join(SEEDED, name)
+    meta = json.load(open(os.path.join(dst, "meta.json")))
+    prop = meta["property"]
+    wt = worktree(name)
+    kept = []
+    try:
+        rc, out = sh("git apply %s" % os.path.join(dst, "patch.diff"), cwd=wt)
+        if rc != 0:
+            print("patch does not apply")
+            return
+        for seed in seeds:
+            evd = "/tmp/seed-evid-%s-%d" % (name, os.getpid())
+            shutil.rmtree(evd, ignore_errors=True)
+            os.makedirs(evd + "/replays", exist_ok=True)
+            env = dict(GOENV, VERIF_REPO=wt, VERIF_EVIDENCE_DIR=evd, VERIF_SEED=str(seed))
+            rc, out = sh("bin/check %s --tier quick" % prop, cwd="/verif", env=env, timeout=3000)
+            for fn in sorted(os.listdir(evd + "/replays")):
+                r = json.load(open(os.path.join(evd, "replays", fn)))
+                if not r.get("concrete_failing_input"):
+                    continue
+                for c in r.get("cases", []):
+                    if isinstance(c, str) and c.startswith("irc ") and c not in kept:
+                        kept.append(c)
+            shutil.rmtree(evd, ignore_errors=True)
+            if kept:
+                break
+    finally:
+        drop(wt)
+    for k, c in enumerate(kept[:3]):
+        path = "/verif/corpus/irc/seeded-%s-%d.case" % (name, k)
+        open(path, "w").write(c + "\n")
+        print("kept", path, len(c))
+    if not kept:
+        print("nothing harvested for", name)
+    meta["corpus_cases"] = ["corpus/irc/seeded-%s-%d.case" % (name, k) for k in range(len(kept[:3]))]
+    json.dump(meta, open(os.path.join(dst, "meta.json"), "w"), indent=1)
+
+
 if __name__ == "__main__":
     if sys.argv[1] == "confirm":
         confirm(sys.argv[2], sys.argv[3])
+    elif sys.argv[1] == "harvest":
+        harvest(sys.argv[2], [int(x) for x in sys.argv[3:]] or [20250925, 1, 2, 3, 4, 5, 6, 7])
     else:
         run(sys.argv[2], sys.argv[3:])
